@@ -364,8 +364,6 @@ theorem poscarNums_counts (s : Sys) (cart : Bool) (scale : ℚ) (hna : s.natoms 
     (poscarNums s cart scale).counts ≠ [] ∧
     (poscarNums s cart scale).counts.foldl (· + ·) 0 = (poscarNums s cart scale).coords.length ∧
     (poscarNums s cart scale).coords.length = s.natoms := by
-  obtain ⟨hm0, hmax⟩ := le_maxType s.atype
-  have hM : ((maxType s.atype).toNat : Int) = maxType s.atype := Int.toNat_of_nonneg hm0
   have hne : s.atype ≠ [] := by
     intro h; rw [h] at hlen; exact hna (by simp [Sys.natoms, ← hlen])
   obtain ⟨t0, tr, ht0⟩ : ∃ t r, s.atype = t :: r := by
@@ -373,8 +371,8 @@ theorem poscarNums_counts (s : Sys) (cart : Bool) (scale : ℚ) (hna : s.natoms 
     | nil => exact absurd h hne
     | cons t r => exact ⟨t, r, rfl⟩
   have ht0m : t0 ∈ s.atype := by rw [ht0]; simp
-  have hMpos : 0 < (maxType s.atype).toNat := by
-    have := (hty t0 ht0m).1; have := hmax t0 ht0m; omega
+  have hNpos : 0 < s.natypes := by
+    have := hty t0 ht0m; omega
   have hc0 : ∀ {α : Type} (xs : List α), xs.length = s.pos.length →
       (groupByType s.atype xs s.natypes).length = s.natoms := by
     intro α xs hx
@@ -395,7 +393,12 @@ theorem poscarNums_counts (s : Sys) (cart : Bool) (scale : ℚ) (hna : s.natoms 
   · rw [hcl, foldl_add_eq_sum, Nat.zero_add]
     unfold poscarNums
     simp only
-    rw [sum_counts s.atype _ (fun t ht => ⟨(hty t ht).1, by rw [hM]; exact hmax t ht⟩), hlen]; rfl
+    rw [sum_counts s.atype _ hty, hlen]; rfl
+
+/-- the counts line has one entry per atom type of the system. -/
+theorem poscarNums_counts_length (s : Sys) (cart : Bool) (scale : ℚ) :
+    (poscarNums s cart scale).counts.length = s.natypes := by
+  simp [poscarNums]
 
 /-- **POSCAR**: the independent reader applied to the written text. -/
 theorem parsePoscar_writePoscar (s : Sys) (header : List String) (symbols : Option (List String)) (coordstyle : String)
